@@ -6,7 +6,7 @@ import json, glob, os, re, subprocess, sys
 root = os.path.dirname(os.path.dirname(os.path.abspath(__file__)))
 sel = sys.argv[1:]
 bad = 0
-for f in sorted(glob.glob(os.path.join(root, "seeded", "*", "meta.json")) + glob.glob(os.path.join(root, "regress", "*", "meta.json"))):
+for f in sorted(glob.glob(os.path.join(root, "seeded", "*", "meta.json")) + glob.glob(os.path.join(root, "regress", "*", "meta.json")) + glob.glob(os.path.join(root, "probes", "*", "meta.json"))):
     m = json.load(open(f))
     if sel and not any(m["id"].startswith(s) for s in sel):
         continue
